@@ -157,8 +157,11 @@ def build(c):
 
 
 def observe(w):
-    unlocks = sum(1 for e in w.log if e[0] == "unlock_attempt")
     apdus = w.apdus()
+    # unlock commands that reached the device, in whatever mode it was (Ledger UNLOCK, SGX
+    # UNLOCK carrying the PIN)
+    unlocks = max(sum(1 for e in w.log if e[0] == "unlock_attempt"),
+                  sum(1 for a in apdus if a[1] in (0xFE, 0xA3)))
     pin_sends = sum(1 for a in apdus if a[1] == 0x41)
     return unlocks, pin_sends, apdus
 
@@ -202,6 +205,70 @@ def run_case(c):
     if serves:
         labels.append("serves")
     return Out(labels, c["mode"] == BOOT or boundary)
+
+
+# ---------------------------------------------------------------- one link fault during bring-up
+
+FAULT_KINDS = ["write", "read", "timeout"]
+
+
+def fault_cases(tier, seed):
+    out = []
+    for plat, mode, retries, unlock_ok, change, post in itertools.product(
+            PLATFORMS, [BOOT, SIGNER], [2, 3], [True, False], [False, "accept"], [SIGNER, BOOT]):
+        if mode == SIGNER and (retries != 3 or not unlock_ok or change or post != SIGNER):
+            continue
+        for j in range(14):
+            for kind in FAULT_KINDS:
+                out.append({"mode": mode, "onboarded": True, "ui_version": [5, 4, 1],
+                            "signer_version": [5, 4, 1], "retries": retries, "echo_ok": True,
+                            "unlock_ok": unlock_ok, "needs_change": bool(change),
+                            "change": change, "post_mode": post, "platform": plat,
+                            "fault_at": j, "fault_kind": kind})
+    return out
+
+
+def run_fault_case(c):
+    """The bring-up meets one link fault at its j-th exchange (the device has acted on the
+    command when the fault is on the way back). Whatever the manager does about it, the unlock
+    command and the PIN reach the device at most once, and only a device that qualifies; if the
+    manager goes on to serve, the device is onboarded and in signer mode with a supported
+    version."""
+    c = dict(c)
+    c["ui_version"] = tuple(c["ui_version"])
+    c["signer_version"] = tuple(c["signer_version"])
+    w, p = build(c)
+    w.faults[w.nex + c["fault_at"]] = c["fault_kind"]
+    try:
+        p.initialize_device()
+        out = "serve"
+    except (HSM2ProtocolError, HSM2ProtocolInterrupt):
+        out = "stop"
+    except Exception as e:   # noqa - the manager stops either way
+        out = "stop:" + type(e).__name__
+    finally:
+        Platform.set(Platform.LEDGER)
+    mw.check_sim(w)
+    hit = any(e[0] == "fault" for e in w.log)
+    unlocks, pin_sends, apdus = observe(w)
+    cond, _ = model(c)
+    desc = {k: c[k] for k in KEYS + ["fault_at", "fault_kind"]}
+    pin_len = len(PIN)
+    if unlocks > 1:
+        raise Violation("unlock-more-than-once", "%r: %d unlock commands reached the device" % (
+            desc, unlocks))
+    if pin_sends > pin_len:
+        raise Violation("pin-sent-more-than-once", "%r: %d SEND_PIN commands" % (desc, pin_sends))
+    if (unlocks or pin_sends) and not cond:
+        raise Violation("pin-sent-to-unsafe-device", repr(desc))
+    if out == "serve" and not (w.mode == SIGNER and supported(w.signer_version)
+                               and w.onboarded is True):
+        raise Violation("serves-from-unsafe-state", "%r: device mode %r" % (desc, w.mode))
+    labels = ["fault-stage", "fault:" + c["fault_kind"], "fault-out:" + out.split(":")[0],
+              "fault-platform:" + c["platform"]]
+    if hit and any(e[0] == "fault" and len(e) > 2 and e[2][1] in (0xFE, 0xA3) for e in w.log):
+        labels.append("fault-at-unlock")
+    return Out(labels, hit)
 
 
 # ---------------------------------------------------------------- through the real server
@@ -276,12 +343,16 @@ def run_server(c):
 
 REQUIRED_LABELS = {t: ["change:%s" % x for x in CHANGES] + ["out:serve", "out:error", "out:interrupt", "platform:Ledger",
                        "platform:SGX", "platform:TCP", "unlocks:0", "unlocks:1", "serves",
-                       "server:answered", "server:silent"] for t in ("quick", "thorough")}
+                       "server:answered", "server:silent", "fault-at-unlock", "fault-out:stop",
+                       "fault-platform:SGX", "fault-platform:Ledger"] for t in ("quick", "thorough")}
 
 
 def stages(tier):
     return [EnumStage("grid", lambda t, s: Grid(t, s), run_case, exhaustive={"thorough": True},
                       budget_s={"quick": 120, "thorough": 1800}),
+            EnumStage("bring-up-faults", fault_cases, run_fault_case,
+                      exhaustive={"quick": True, "thorough": True},
+                      budget_s={"quick": 60, "thorough": 120}),
             EnumStage("server", server_cases, run_server,
                       exhaustive={"quick": True, "thorough": True},
                       budget_s={"quick": 60, "thorough": 60})]
